@@ -324,3 +324,83 @@ PLANS["C10"]["steps"] = lambda tier, seed: _c10_steps(tier, seed) + [udp_live("e
 _c11_steps = PLANS["C11"]["steps"]
 PLANS["C11"]["steps"] = lambda tier, seed: _c11_steps(tier, seed) + [udp_live("access_udp_allow_mio", "access", "mio", ["--mode", "allow"])] + (
     [udp_live("access_udp_deny_mio", "access", "mio", ["--mode", "deny"]), udp_live("access_udp_allow_uring", "access", "uring", ["--mode", "allow"]), udp_live("access_udp_deny_uring", "access", "uring", ["--mode", "deny"])] if tier == "thorough" else [])
+
+
+def http_live(name, scenario, extra=None, **kw):
+    s = {"name": name, "bin": "http_live", "args": ["--scenario", scenario] + (extra or []), "crash_is_violation": True, "timeout_s": 900}
+    s.update(kw)
+    return s
+
+
+def c16_steps(tier):
+    if tier == "quick":
+        return [http_live("framing_1x1", "framing", ["--socket_workers", "1", "--swarm_workers", "1", "--requests", "1500"]),
+                http_live("framing_2x3", "framing", ["--socket_workers", "2", "--swarm_workers", "3", "--requests", "1500", "--max_peers", "50"]),
+                http_live("framing_3x2_close", "framing", ["--socket_workers", "3", "--swarm_workers", "2", "--requests", "1500", "--no_keep_alive"])]
+    out = []
+    for s in (1, 2, 3):
+        for w in (1, 2, 3):
+            for ka in (True, False):
+                out.append(http_live("framing_%dx%d_%s" % (s, w, "ka" if ka else "close"), "framing",
+                                     ["--socket_workers", str(s), "--swarm_workers", str(w), "--requests", "12000", "--rounds", "40", "--max_peers", "50" if (s + w) % 2 else "5", "--max_scrape", "3" if w != 2 else "100"] + ([] if ka else ["--no_keep_alive"])))
+    out.append(http_live("corpus_2x2", "corpus", ["--socket_workers", "2", "--swarm_workers", "2", "--cases", "3000"]))
+    return out
+
+
+PLANS["C16"] = {
+    "title": "HTTP tracker: one well-framed reply per request; workers are invisible",
+    "level": "exploration",
+    "engine": "live",
+    "technique": "client-side framing monitor (own HTTP and strict bencode readers) over byte logs of TCP clients against the real in-process tracker; sequential phases compared with the reference tracker for every worker configuration, concurrent phases decided by the linearizability checker",
+    "packages": ["vhttp"],
+    "parallel": 4,
+    "steps": lambda tier, seed: c16_steps(tier),
+    "min_evaluations": {"quick": 3000, "thorough": 100000},
+    "assumptions": ["TLS, pipelining and reverse-proxy mode (C03) are out of scope here", "mock clock frozen: no expiry during a run"],
+    "level_text": "Exploration on the live tracker: for socket_workers x swarm_workers in {1,2,3}^2 and keep-alive on/off (three configurations in quick, all eighteen in thorough) five actors (IPv4 hosts through the plain and the dual-stack listener, ::1) send announces (all events, numwant absent/0/n, unknown keys) and scrapes (hashes on one / several / all swarm workers, repeated, beyond max_scrape_torrents) over kept-alive or fresh connections, a third of them split across TCP segments with the cut walking over every byte; every reply must be one HTTP/1.1 200 response whose Content-Length equals the bytes that follow and whose body is one complete canonical bencode value equal to the reference tracker's reply, while hostile connections (garbage, 2049-byte requests, bad escapes, POST, never-completed requests) come and go; then 8 connections run concurrently and each torrent's history must be linearizable.",
+    "level_note": "Trusted: framing monitor, strict bencode decoder, reference model, linearizability checker.",
+    "design_ref": "3/C16",
+}
+
+
+def c18_steps(tier):
+    out = []
+    udp_cases = [("30", False), ("454", True), ("456", True)] if tier == "quick" else [("30", False), ("30", True), ("454", True), ("454", False), ("456", True), ("1362", False), ("1364", False), ("5000", True)]
+    backends = ["mio", "uring"]
+    for be in backends:
+        for mp, v6 in udp_cases:
+            if tier == "quick" and be == "uring" and mp == "456":
+                continue
+            out.append(udp_live("udp_%s_peers%s_%s" % (be, mp, "v6" if v6 else "v4"), "buffers", be, ["--max_response_peers", mp, "--max_scrape", "255" if mp == "30" else "70"] + (["--v6"] if v6 else [])))
+    http_cases = [(["--max_peers", "50"], "default"), (["--max_peers", "222", "--v6"], "p222v6"), (["--max_peers", "664"], "p664v4")]
+    if tier != "quick":
+        http_cases += [(["--max_peers", m] + fam, "p%s%s" % (m, "v6" if fam else "v4")) for m in ("220", "221", "223", "661", "665", "2000") for fam in ([], ["--v6"])]
+        http_cases += [(["--max_peers", "50", "--digits", d], "digits" + d) for d in ("2", "3")]
+        http_cases += [(["--max_peers", "50", "--socket_workers", "2", "--swarm_workers", "3"], "2x3")]
+    for extra, label in http_cases:
+        out.append(http_live("http_" + label, "buffers", extra))
+    return out
+
+
+PLANS["C18"] = {
+    "title": "Every reply the tracker computes fits its buffers and is delivered whole",
+    "level": "exploration",
+    "engine": "live",
+    "technique": "live worst-case probing per configuration: either run() refuses the configuration at start-up or the harness fills the largest swarm over the wire and the worst-case accepted request must be answered completely (framing monitors of C13 / C16)",
+    "packages": ["vudp", "vhttp"],
+    "parallel": 6,
+    "steps": lambda tier, seed: c18_steps(tier),
+    "min_evaluations": {"quick": 20, "thorough": 100},
+    "assumptions": ["counter widths beyond what this machine can populate (millions of peers) are extrapolated, not observed", "one client address announcing N ports stands for N peers"],
+    "level_text": "Exploration over configurations: UDP (mio and io_uring) with max_response_peers at the defaults and on both sides of the 8192-byte boundary for each family, max_scrape_torrents 70 and 255, announces followed by 300 extension bytes; HTTP with max_peers at the default and around the former 4096-byte boundary for each family, scrapes of 1..65 hashes (65 minimal-length hashes are what fits the 2048-byte request buffer) with 1- to 3-digit counters. A configuration must either be refused by run() or deliver the worst-case reply whole.",
+    "level_note": "Trusted: the wire decoders of the harness; start-up refusal is observed as run() returning an error before the first request.",
+    "design_ref": "3/C18",
+}
+
+_c10b = PLANS["C10"]["steps"]
+PLANS["C10"]["steps"] = lambda tier, seed: _c10b(tier, seed) + [http_live("expiry_http", "expiry", ["--swarm_workers", "2"])]
+_c11b = PLANS["C11"]["steps"]
+PLANS["C11"]["steps"] = lambda tier, seed: _c11b(tier, seed) + [http_live("access_http_allow", "access", ["--swarm_workers", "3"])] + ([http_live("access_http_deny", "access", ["--mode", "deny", "--swarm_workers", "2"])] if tier == "thorough" else [])
+_c12b = PLANS["C12"]["steps"]
+PLANS["C12"]["steps"] = lambda tier, seed: _c12b(tier, seed) + [http_live("corpus_http", "corpus", ["--cases", "400" if tier == "quick" else "4000", "--socket_workers", "2", "--swarm_workers", "2"]),
+                                                                udp_live("corpus_udp_mio", "contract", "mio", ["--workers", "2", "--datagrams", "1500"])]
